@@ -941,3 +941,57 @@ Definition page_entity : entity :=
 Theorem entity_named_page_refuted :
   in_quantifier page_entity = true /\ compile page_entity = Err "symbol already defined".
 Proof. split; vm_compute; reflexivity. Qed.
+
+(* ---- the literal default paths, with the clean-path fact derived from the quantifier ---------------- *)
+Lemma filter_all : forall {A} (p : A -> bool) l, Forall (fun x => p x = true) l -> filter p l = l.
+Proof. induction 1 as [|x l H _ IH]; [reflexivity|]. cbn. now rewrite H, IH. Qed.
+
+Lemma clean_of_nonempty : forall rest,
+  Forall (fun p => negb (is_nil p) = true) (split_slash [] rest) -> clean_path ([47] ++ rest) = [47] ++ rest.
+Proof.
+  intros rest H. unfold clean_path, segments. change ([47] ++ rest) with ([] ++ 47 :: rest) at 1.
+  rewrite split_slash_app_slash. cbn [split_slash rev filter is_nil negb app].
+  rewrite (filter_all _ _ H), join_split. reflexivity.
+Qed.
+
+Lemma starts_letter_nonempty : forall l, forallb starts_letter l = true ->
+  Forall (fun p => negb (is_nil p) = true) l.
+Proof.
+  intros l H. apply Forall_forall. intros p Hp. rewrite forallb_forall in H. specialize (H p Hp).
+  destruct p; [discriminate|reflexivity].
+Qed.
+
+Lemma default_base_clean : forall e, e_base_url e = [] -> name_ok (e_name e) = true -> pkg_ok (e_pkg e) = true ->
+  clean_path (query_base e) = query_base e.
+Proof.
+  intros e Hb Hn Hp. unfold query_base, base_url. rewrite Hb. apply clean_of_nonempty.
+  change (bs "/q") with ([47] ++ bs "q"). rewrite <- !app_assoc. cbn [app]. rewrite !split_slash_app_slash.
+  unfold pkg_ok in Hp. apply andb_true_iff in Hp. destruct Hp as [_ Hp].
+  apply Forall_app. split; [now apply starts_letter_nonempty|].
+  pose proof (to_snake_lower_start _ Hn) as Hs. unfold name_ok in Hn. apply andb_true_iff in Hn. destruct Hn as [Hi _].
+  destruct (ident_no_colon_slash _ (to_snake_ident _ Hi)) as [_ Hns].
+  unfold snake_name. rewrite (split_slash_single _ Hns). apply Forall_app. split.
+  - constructor; [|constructor]. destruct (to_snake (e_name e)); [discriminate|reflexivity].
+  - repeat constructor.
+Qed.
+
+Theorem default_paths_quantified : forall e, e_base_url e = [] -> in_quantifier e = true ->
+  nth 0 (query_paths e) [] = query_base e ++ flat_map (fun u => 47 :: brace u) (get_keys e)
+  /\ nth 2 (query_paths e) [] =
+       query_base e ++ flat_map (fun u => 47 :: brace u) (get_keys e) ++ bs "/events"
+  /\ query_base e = [47] ++ map (fun c => if c =? 46 then 47 else c) (e_pkg e) ++ [47] ++ to_snake (e_name e) ++ bs "/q".
+Proof.
+  intros e Hb Hq. pose proof (quantified_of e Hq) as Q.
+  pose proof (q_name e Q) as Hn. pose proof Hn as Hn'. unfold name_ok in Hn'. apply andb_true_iff in Hn'. destruct Hn' as [Hi _].
+  assert (Hp : no_colon (e_pkg e) = true).
+  { pose proof (q_pkg e Q) as H. unfold pkg_ok in H. apply andb_true_iff in H. destruct H as [H _].
+    unfold no_colon. rewrite forallb_forall in *. intros c Hc. specialize (H c Hc).
+    unfold pkg_char, is_low, is_num in H. apply negb_true_iff. apply N.eqb_neq. intros ->. cbn in H. discriminate. }
+  assert (Hk : Forall (fun k => ident (uf_name (k_def k)) = true) (e_keys e)).
+  { apply Forall_forall. intros k Hk. pose proof (fields_wf_all _ _ (q_keys_wf e Q) (in_map k_def _ _ Hk)) as W.
+    unfold ufield_wf in W. apply andb_true_iff in W. destruct W as [W _].
+    unfold name_ok in W. apply andb_true_iff in W. tauto. }
+  destruct (default_paths e Hb Hi Hp (default_base_clean e Hb Hn (q_pkg e Q)) Hk) as [H0 [H2 _]].
+  split; [exact H0|]. split; [exact H2|]. unfold query_base, base_url, snake_name. rewrite Hb.
+  rewrite <- !app_assoc. reflexivity.
+Qed.
